@@ -35,6 +35,8 @@ pub struct Violation {
     pub class: String,
     pub detail: String,
     pub case: Value,
+    /// cases executed earlier on the same (fresh) thread, in order; needed to replay history-dependent failures
+    pub prefix: Vec<Value>,
     pub count: u64,
 }
 
@@ -61,6 +63,8 @@ pub struct Ctx {
 
 thread_local! {
     static LAST_PANIC: std::cell::RefCell<String> = std::cell::RefCell::new(String::new());
+    /// replay records of the cases already executed on this thread (threads are fresh per chunk / per visit)
+    static PREFIX: std::cell::RefCell<Vec<Value>> = std::cell::RefCell::new(Vec::new());
 }
 
 pub fn install_panic_hook() {
@@ -194,6 +198,7 @@ impl Ctx {
             class: class.to_string(),
             detail: detail.into(),
             case,
+            prefix: PREFIX.with(|p| p.borrow().clone()),
             count: 0,
         });
         e.count += 1;
@@ -260,20 +265,28 @@ pub fn finish(ctx: &Arc<Ctx>, replay: Option<ReplayFn>) -> i32 {
             unlisted.push(v);
         }
     }
-    // determinism gate: a violation must reproduce from its replay record
+    // determinism gate: a violation must reproduce from its replay record, executed on a fresh
+    // thread: first the case alone, then (hidden state carried between calls) after its recorded prefix
+    let mut unlisted = unlisted;
     if let Some(rf) = replay {
-        for v in &unlisted {
-            let c2 = Ctx::new(ctx.prop, ctx.tier, ctx.seed, true);
-            rf(&c2, &v.case);
-            let again = c2.violations();
-            if !again.iter().any(|w| w.site == v.site && w.class == v.class) {
-                ctx.machinery_error(format!(
-                    "violation {} / {} did not reproduce from its replay record (got {:?})",
-                    v.site,
-                    v.class,
-                    again.iter().map(|w| (&w.site, &w.class)).collect::<Vec<_>>()
-                ));
+        for v in unlisted.iter_mut() {
+            let alone = replay_on_fresh_thread(ctx, rf, &[], &v.case);
+            if alone.iter().any(|w| w.site == v.site && w.class == v.class) {
+                v.prefix.clear();
+                continue;
             }
+            let with_prefix = replay_on_fresh_thread(ctx, rf, &v.prefix, &v.case);
+            if with_prefix.iter().any(|w| w.site == v.site && w.class == v.class) {
+                v.detail = format!("HISTORY-DEPENDENT (passes in isolation, fails after the {} recorded earlier calls on the same thread): {}", v.prefix.len(), v.detail);
+                continue;
+            }
+            ctx.machinery_error(format!(
+                "violation {} / {} did not reproduce from its replay record, alone or after its {}-case prefix (got {:?})",
+                v.site,
+                v.class,
+                v.prefix.len(),
+                with_prefix.iter().map(|w| (&w.site, &w.class)).collect::<Vec<_>>()
+            ));
         }
     }
     let wall = ctx.start.elapsed().as_secs_f64();
@@ -360,12 +373,51 @@ pub fn finish(ctx: &Arc<Ctx>, replay: Option<ReplayFn>) -> i32 {
     let _ = std::fs::create_dir_all(&dir);
     for (i, v) in unlisted.iter().enumerate() {
         let path = format!("{}/{}-{}-{}.json", dir, ctx.prop, ctx.tier.name(), i);
-        let rec = json!({"property": ctx.prop, "site": v.site, "class": v.class, "detail": v.detail, "count": v.count, "seed": ctx.seed, "case": v.case});
+        let rec = json!({"property": ctx.prop, "site": v.site, "class": v.class, "detail": v.detail, "count": v.count, "seed": ctx.seed, "case": v.case, "prefix": v.prefix});
         let _ = std::fs::write(&path, serde_json::to_string_pretty(&rec).unwrap());
         println!("VIOLATION property={} replay={}", ctx.prop, path);
         println!("  site={} class={} cases={} detail={}", v.site, v.class, v.count, truncate(&v.detail, 300));
     }
     1
+}
+
+/// execute `prefix` (results discarded) and then `case` on one fresh thread; returns the violations of `case`
+pub fn replay_on_fresh_thread(ctx: &Arc<Ctx>, rf: ReplayFn, prefix: &[Value], case: &Value) -> Vec<Violation> {
+    let (prop, tier, seed) = (ctx.prop, ctx.tier, ctx.seed);
+    std::thread::scope(|s| {
+        s.spawn(|| {
+            let scratch = Ctx::new(prop, tier, seed, true);
+            for p in prefix {
+                let _ = guard(|| rf(&scratch, p));
+            }
+            let judged = Ctx::new(prop, tier, seed, true);
+            let _ = guard(|| rf(&judged, case));
+            judged.violations()
+        })
+        .join()
+        .unwrap_or_default()
+    })
+}
+
+/// E2 driver: cases are executed in fixed-size chunks, each chunk sequentially on its own fresh
+/// thread (so hidden per-thread state in the library starts clean and the call history in front of
+/// every case is deterministic and recorded), chunks in parallel.
+pub fn run_cases<C: serde::Serialize + Sync>(ctx: &Arc<Ctx>, cases: &[C], chunk: usize, eval: impl Fn(&Ctx, &C) + Sync) {
+    use rayon::prelude::*;
+    cases.par_chunks(chunk.max(1)).for_each(|ch| {
+        std::thread::scope(|s| {
+            let h = s.spawn(|| {
+                PREFIX.with(|p| p.borrow_mut().clear());
+                for c in ch {
+                    eval(ctx, c);
+                    PREFIX.with(|p| p.borrow_mut().push(serde_json::to_value(c).unwrap()));
+                }
+            });
+            if h.join().is_err() {
+                ctx.machinery_error("case evaluation panicked outside a guarded library call");
+            }
+        });
+    });
 }
 
 pub fn truncate(s: &str, n: usize) -> String {
@@ -390,7 +442,50 @@ use stateright::{Checker, Model, Property};
 pub struct HistModel {
     pub inits: Vec<Vec<u16>>,
     pub actions: Box<dyn Fn(&[u16]) -> Vec<u16> + Send + Sync>,
-    pub visit: Box<dyn Fn(&[u16]) + Send + Sync>,
+    /// re-executes the history on the real code and judges it; should end with `prefix_push(replay record)`
+    pub visit: Arc<dyn Fn(&[u16]) + Send + Sync>,
+    /// visits are executed on helper threads that are replaced by a fresh thread every `batch`
+    /// visits (1 = every history on its own fresh thread). Hidden per-thread state in the library
+    /// therefore starts clean at a known point and the visits since then are recorded (PREFIX).
+    pub batch: usize,
+}
+
+/// record the replay record of a finished visit/case on this thread (see Violation::prefix)
+pub fn prefix_push(v: Value) {
+    PREFIX.with(|p| p.borrow_mut().push(v));
+}
+
+struct Helper {
+    tx: Option<std::sync::mpsc::Sender<Vec<u16>>>,
+    done: std::sync::mpsc::Receiver<()>,
+    n: usize,
+    handle: Option<std::thread::JoinHandle<()>>,
+}
+impl Helper {
+    fn spawn(visit: Arc<dyn Fn(&[u16]) + Send + Sync>) -> Helper {
+        let (tx, rx) = std::sync::mpsc::channel::<Vec<u16>>();
+        let (dtx, drx) = std::sync::mpsc::channel::<()>();
+        let handle = std::thread::spawn(move || {
+            while let Ok(state) = rx.recv() {
+                let _ = guard(|| visit(&state));
+                if dtx.send(()).is_err() {
+                    break;
+                }
+            }
+        });
+        Helper { tx: Some(tx), done: drx, n: 0, handle: Some(handle) }
+    }
+}
+impl Drop for Helper {
+    fn drop(&mut self) {
+        self.tx.take();
+        if let Some(h) = self.handle.take() {
+            let _ = h.join();
+        }
+    }
+}
+thread_local! {
+    static HELPER: std::cell::RefCell<Option<Helper>> = std::cell::RefCell::new(None);
 }
 
 impl Model for HistModel {
@@ -409,7 +504,23 @@ impl Model for HistModel {
     }
     fn properties(&self) -> Vec<Property<Self>> {
         vec![Property::always("invariant evaluated on every history", |m: &HistModel, s: &Vec<u16>| {
-            (m.visit)(s);
+            HELPER.with(|h| {
+                let mut h = h.borrow_mut();
+                let renew = match h.as_ref() {
+                    None => true,
+                    Some(x) => x.n >= m.batch.max(1),
+                };
+                if renew {
+                    *h = None; // joins the old helper
+                    *h = Some(Helper::spawn(m.visit.clone()));
+                }
+                let x = h.as_mut().unwrap();
+                x.n += 1;
+                let sent = x.tx.as_ref().map(|t| t.send(s.clone()).is_ok()).unwrap_or(false);
+                if !sent || x.done.recv().is_err() {
+                    *h = None;
+                }
+            });
             true
         })]
     }
